@@ -28,7 +28,7 @@ ASSUMPTIONS = [
     "don't-care pairs (bool against float/complex, Any, Literal containing 1 vs True/1.0, str against Sequence) give no verdict",
     "with the switch off, non-node values in child fields are outside the statement (the digest needs child nodes); property fields accept any value",
 ]
-MUST_SEE = ["false_vs_bool", "bool_vs_int", "bool_vs_int_union", "bool_in_int_tuple", "fixed_tuple_too_long", "fixed_tuple_too_short", "multi_two_bad", "noninit_bad_default", "switch_off_same_node", "nonconforming", "conforming", "noncompare_fields_checked", "ill_typed_value_equal_to_default", "parent_used_before_subclass"]
+MUST_SEE = ["failed_operations_with_checks_on", "same_annotation_text_other_type", "false_vs_bool", "bool_vs_int", "bool_vs_int_union", "bool_in_int_tuple", "fixed_tuple_too_long", "fixed_tuple_too_short", "multi_two_bad", "noninit_bad_default", "switch_off_same_node", "nonconforming", "conforming", "noncompare_fields_checked", "ill_typed_value_equal_to_default", "parent_used_before_subclass"]
 CONFIG = {
     "quick": {"shards": 16, "d2_sample": 150, "multi": 300, "watchdog_s": 600},
     "thorough": {"shards": 32, "d2_sample": 400, "multi": 600, "watchdog_s": 3400},
@@ -106,6 +106,86 @@ def run_shard(ctx):
             if len(v) < len(u[1]):
                 ctx.count("fixed_tuple_too_short")
 
+    # ------------------------------------------------------------ operations that fail while checks are on
+    src = (
+        f"@dataclass(frozen=True)\nclass {P}IVLeaf(ASTNode):\n    count: int\n    label: str = 'x'\n\n"
+        f"@dataclass(frozen=True)\nclass {P}IVScaled(ASTNode):\n    name: str\n    leaf: {P}IVLeaf\n    scale: InitVar[int]\n\n"
+        f"    def __post_init__(self, scale):\n        super().__post_init__()\n"
+    )
+    exec(compile("from dataclasses import InitVar\n" + src, "<c13 iv>", "exec", dont_inherit=True), ns)
+    IVLeaf, IVScaled = ns[f"{P}IVLeaf"], ns[f"{P}IVScaled"]
+
+    def failing_operations(fr):
+        """duplicate() / replace() / construction that raise with the switch on; the switch stays on and so does the validation"""
+        config.RUNTIME_TYPE_CHECK = True
+        try:
+            leaf = IVLeaf(count=fr.randrange(1000))
+            sc = IVScaled(name="s", leaf=leaf, scale=3)
+            ops = [
+                ("duplicate of a node with an InitVar", lambda: sc.duplicate()),
+                ("replace with an unknown field", lambda: leaf.replace(nosuch=1)),
+                ("replace with an ill-typed value", lambda: leaf.replace(count="x")),
+                ("duplicate as_obj of a broken payload", lambda: IVLeaf.as_obj({"__type": IVLeaf.__name__, "count": []})),
+                ("successful duplicate", lambda: leaf.duplicate().detach()),
+            ]
+            fr.shuffle(ops)
+            for name, op in ops[: fr.randint(1, 4)]:
+                try:
+                    op()
+                except Exception:  # noqa: BLE001
+                    ctx.count("failed_operations_with_checks_on")
+                ctx.evaluations += 1
+                for bad_kw, exp in (({"count": "1"}, ["count"]), ({"count": True, "label": 5}, ["count", "label"])):
+                    try:
+                        n = IVLeaf(**bad_kw)
+                        n.detach()
+                        got = "accepted"
+                    except InvalidTypes as e:
+                        got = sorted(f.name for f in e.invalid_fields)
+                    except Exception as e:  # noqa: BLE001
+                        got = type(e).__name__
+                    if got != exp:
+                        ctx.violation("checks-off-after-failed-operation", f"after '{name}' (switch still on) an ill-typed construction gave {got}, expected InvalidTypes{exp}", {"after": name, "values": bad_kw})
+                        return
+            for x in (sc, leaf):
+                x.detach()
+        finally:
+            config.RUNTIME_TYPE_CHECK = False
+
+    for k in range(12):
+        failing_operations(ctx.rng(("failing-ops", k)))
+
+    # ------------------------------------------------------------ postponed annotations naming class-level types
+    src = (
+        f"@dataclass(frozen=True)\nclass {P}PJoin(ASTNode):\n    class Kind(enum.Enum):\n        INNER = 'inner'\n        OUTER = 'outer'\n\n"
+        f"    Mode = Literal['hash', 'merge']\n    kind: Kind\n    mode: Mode = 'hash'\n    cost: float = 0\n\n"
+        f"@dataclass(frozen=True)\nclass {P}PLoop(ASTNode):\n    class Kind(enum.Enum):\n        FOR = 'for'\n        WHILE = 'while'\n\n"
+        f"    Mode = Literal['eager', 'lazy']\n    kind: Kind\n    mode: Mode = 'lazy'\n    body: tuple[{P}PJoin, ...] = ()\n"
+    )
+    import __future__
+
+    exec(compile("from typing import Literal\n" + src, "<c13 postponed class-level names>", "exec", flags=__future__.annotations.compiler_flag, dont_inherit=True), ns)
+    PJ, PL = ns[f"{P}PJoin"], ns[f"{P}PLoop"]
+    j = PJ(kind=PJ.Kind.INNER)
+    qs = [
+        (PJ, dict(kind=PJ.Kind.INNER, mode="merge", cost=2.0), []),
+        (PJ, dict(kind="inner", mode="lazy", cost="1"), ["cost", "kind", "mode"]),
+        (PJ, dict(kind=PL.Kind.FOR), ["kind"]),
+        (PL, dict(kind=PL.Kind.WHILE, mode="eager", body=(j,)), []),
+        (PL, dict(kind=PJ.Kind.OUTER, mode="hash"), ["kind", "mode"]),
+        (PL, dict(kind=PL.Kind.FOR, mode="merge", body=[j]), ["body", "mode"]),
+    ]
+    if ctx.shard % 2:
+        qs.reverse()
+    for C, kw, exp in qs + qs:
+        ctx.evaluations += 1
+        ctx.count("same_annotation_text_other_type")
+        r = construct(C, kw, True)
+        got = [] if r[0] == "ok" else r[1]
+        if r[0] == "ok":
+            r[1].detach()
+        if got != exp:
+            ctx.violation("same-text-other-type", f"{C.__name__[len(P):]} construction: invalid fields {got}, expected {exp} (two classes of one postponed-annotation module spell different class-level types with the same text)", {"class": C.__name__[len(P):], "values": {k_: vrepr(v) for k_, v in kw.items()}})
     # ------------------------------------------------------------ single-field classes
     for k, a in enumerate(mine):
         ctx.case = ("single", k)
